@@ -60,4 +60,12 @@ CHECKS = {
              'reaches a stream sharing no container with the written one; on the real objects TLC checks after every such call which containers are shared (exactly the advertised ones), that '
              'values are equal where the property says so (flows per phase, phases, T, P, price and characterisation factors through pickling), and a write-through probe confirms the sharing ids.',
         note='Trusted: TLC; the projection (imol data rows, T, P, phases, object identity of data / thermal-condition / phase containers, confirmed behaviourally); integer flows so that comparison is exact. Where the property leaves the outcome open (phase of mixed material, temperature after an energy balance) the spec clauses leave it open.'),
+    'C14': dict(
+        engine='PropCache', category='model_checking',
+        technique='TLA+ spec of the property memo protocol (PropCache.tla) model-checked by TLC (invariants Fresh, MemoSound; the original proxy protocol must fail); TLC witness paths, the counterexample schedule and directed/random histories executed on real streams; every property read validated by TLC (Streams.tla read clause) against a freshly created stream',
+        text='TLC explores all interleavings (depth bound) of reads of three properties (one phase-independent) with temperature / phase / composition / total-flow changes and with '
+             'proxy and link creation, and checks that a read always returns the value of the reader\'s current state; the same model with the original proxy() (shared memo, private key) violates it, '
+             'and that counterexample schedule is replayed on the real code. Real streams are then driven along every witness path containing a read, through directed A-B-A schedules '
+             '(read, change through one handle, read, change back, read through another handle) and random 40-step histories mixing 18 properties with every public mutator; TLC judges every read.',
+        note='Trusted: TLC; the oracle "fresh stream with equal flows, phases, T, P" evaluated by the same property package (tolerance 1e-9 relative); caches themselves are never observed.'),
 }
